@@ -13,8 +13,6 @@ def design_and_replay(run, tier):
         ndrift = 0
         for beh, v in zip(d["replay"], verdicts):
             if not v.get("ok"):
-                if beh["kind"] == "refidx" and "IdxCheck" in v.get("why", ""):
-                    continue        # the coordinate iterator belongs to C05's check
                 run.fail({"kind": "replay", "behaviour": beh, "verdict": v},
                          "%s behaviour diverges in the real code: %s" % (beh["kind"], v.get("why")))
             else:
